@@ -334,14 +334,46 @@ def nat_limbs(n, base_bits=13):
     return out
 
 
+class CallTimeout(BaseException):
+    """an implementation call did not return within CALL_LIMIT seconds (non-termination is a wrong result, not a hang of the check)"""
+
+
+CALL_LIMIT = float(os.environ.get("VERIF_CALL_LIMIT", "900"))
+_depth = [0]
+
+
+def _on_alarm(signum, frame):
+    raise CallTimeout()
+
+
 def outcome(fn, *a, **kw):
-    """Run an implementation call; classify the result as ('ok', value) or ('raise', typename)."""
+    """Run an implementation call; classify the result as ('ok', value) or ('raise', typename).
+    The outermost call on the main thread runs under a wall-clock limit far above any legitimate duration of a library call
+    (milliseconds to seconds), so that a change that makes the library loop forever is decided ('raise', 'CallTimeout')
+    instead of hanging the check."""
+    import signal
+    import threading
+    armed = False
+    if _depth[0] == 0 and threading.current_thread() is threading.main_thread():
+        try:
+            signal.signal(signal.SIGALRM, _on_alarm)
+            signal.setitimer(signal.ITIMER_REAL, CALL_LIMIT)
+            armed = True
+        except (ValueError, OSError):
+            armed = False
+    _depth[0] += 1
     try:
         return ("ok", fn(*a, **kw))
     except RecursionError:
         return ("raise", "RecursionError")
+    except CallTimeout:
+        return ("raise", "CallTimeout")
     except Exception as e:  # noqa
         return ("raise", type(e).__name__)
+    finally:
+        _depth[0] -= 1
+        if armed:
+            signal.setitimer(signal.ITIMER_REAL, 0)
 
 
 def setup_repo_import():
